@@ -264,6 +264,10 @@ type Opt struct {
 	// "default", "choices", "hidden", "env", "optional", "desc", "valuename",
 	// "mask".
 	InCode []string `json:"incode,omitempty"`
+	// ViaAdd: the option is not a struct field but a separate variable added
+	// with Group.AddOption after the group was built (such options come last
+	// in their group; they cannot carry tag-only attributes)
+	ViaAdd bool `json:"viaadd,omitempty"`
 }
 
 func (o *Opt) inCode(attr string) bool {
@@ -369,6 +373,9 @@ type Positional struct {
 	// Split > 0: the arguments are declared in two positional-args structs of the
 	// same command, the first holding Args[:Split]
 	Split int `json:"split,omitempty"`
+	// Ptr: the positional-args field is a pointer to the struct: "nil" at
+	// setup, or "set"
+	Ptr string `json:"ptr,omitempty"`
 }
 
 type Cmd struct {
@@ -746,8 +753,11 @@ type inlineBlock struct {
 func inlineBlocks(g *Group) []inlineBlock {
 	var r []inlineBlock
 	for i := range g.Options {
+		if g.Options[i].ViaAdd {
+			continue
+		}
 		m := g.Options[i].Inline
-		if n := len(r); n > 0 && r[n-1].mark == m {
+		if n := len(r); n > 0 && r[n-1].mark == m && r[n-1].to == i {
 			r[n-1].to = i + 1
 			continue
 		}
@@ -828,13 +838,19 @@ func (bl *builder) groupType(g *Group, host *Cmd) reflect.Type {
 			if host.Pos.Required != "" {
 				tagKV(&sb, "required", host.Pos.Required)
 			}
+			pt := func(p *Positional) reflect.Type {
+				if host.Pos.Ptr != "" {
+					return reflect.PtrTo(posStructType(p))
+				}
+				return posStructType(p)
+			}
 			if sp := host.Pos.Split; sp > 0 && sp < len(host.Pos.Args) {
 				p1 := &Positional{Args: host.Pos.Args[:sp]}
 				p2 := &Positional{Args: host.Pos.Args[sp:]}
-				fs = append(fs, reflect.StructField{Name: host.Pos.Field, Type: posStructType(p1), Tag: reflect.StructTag(sb.String())})
-				fs = append(fs, reflect.StructField{Name: host.Pos.Field + "B", Type: posStructType(p2), Tag: reflect.StructTag(sb.String())})
+				fs = append(fs, reflect.StructField{Name: host.Pos.Field, Type: pt(p1), Tag: reflect.StructTag(sb.String())})
+				fs = append(fs, reflect.StructField{Name: host.Pos.Field + "B", Type: pt(p2), Tag: reflect.StructTag(sb.String())})
 			} else {
-				fs = append(fs, reflect.StructField{Name: host.Pos.Field, Type: posStructType(host.Pos), Tag: reflect.StructTag(sb.String())})
+				fs = append(fs, reflect.StructField{Name: host.Pos.Field, Type: pt(host.Pos), Tag: reflect.StructTag(sb.String())})
 			}
 		}
 		for i := range host.Cmds {
@@ -888,11 +904,7 @@ func (bl *builder) cmdType(c *Cmd) reflect.Type {
 // nil-declared pointer.
 func (bl *builder) throughPtr(f reflect.Value, isNil bool, phase int, behind bool, what string) (elem reflect.Value, nowBehind, follow bool, detached string) {
 	if !isNil {
-		if phase == 0 && !behind {
-			f.Set(reflect.New(f.Type().Elem()))
-		}
 		if f.IsNil() {
-			// allocated pointer inside a subtree that is itself handled in phase 1
 			f.Set(reflect.New(f.Type().Elem()))
 		}
 		return f.Elem(), behind, true, ""
@@ -987,15 +999,29 @@ func (bl *builder) bindGroup(cmdID, path string, g *Group, v reflect.Value, host
 		bl.bindGroup(cmdID, path+"."+sg.Field, sg, gv, nil, phase, gBehind, gDet)
 	}
 	if host != nil {
-		if host.Pos != nil && mine {
-			pv := v.FieldByName(host.Pos.Field)
+		if host.Pos != nil {
 			for i, a := range host.Pos.Args {
+				fname := host.Pos.Field
 				if sp := host.Pos.Split; sp > 0 && sp < len(host.Pos.Args) && i >= sp {
-					pv = v.FieldByName(host.Pos.Field + "B")
+					fname += "B"
+				}
+				pv, pBehind, pDet := v.FieldByName(fname), behind, detached
+				if host.Pos.Ptr != "" {
+					e, nb, follow, det := bl.throughPtr(pv, host.Pos.Ptr == "nil", phase, behind, "pointer field "+fname+" (positional-args)")
+					if !follow {
+						continue
+					}
+					pv, pBehind = e, nb
+					if det != "" {
+						pDet = det
+					}
+				}
+				if pBehind != (phase == 1) {
+					continue
 				}
 				b.PosVal[host.ID+"/"+a.Field] = pv.FieldByName(a.Field)
-				if detached != "" {
-					b.Detached[host.ID+"/"+a.Field] = detached
+				if pDet != "" {
+					b.Detached[host.ID+"/"+a.Field] = pDet
 				}
 			}
 		}
@@ -1184,6 +1210,25 @@ func (bl *builder) pair() {
 	b := bl.b
 	var pairGroup func(lg *flags.Group, g *Group)
 	pairGroup = func(lg *flags.Group, g *Group) {
+		for i := range g.Options {
+			o := &g.Options[i]
+			if !o.ViaAdd {
+				continue
+			}
+			lo := &flags.Option{Description: o.Desc, LongName: o.Long, Default: append([]string(nil), o.Defaults...),
+				EnvDefaultKey: o.Env, EnvDefaultDelim: o.EnvDelim, OptionalArgument: o.Optional != "", OptionalValue: append([]string(nil), o.OptVals...),
+				Required: o.Required != "", ValueName: o.ValueName, DefaultMask: o.DefaultMask, Choices: append([]string(nil), o.Choices...), Hidden: o.Hidden != ""}
+			if o.Short != "" {
+				lo.ShortName = []rune(o.Short)[0]
+			}
+			if len(lo.Default) == 0 {
+				lo.Default = nil
+			}
+			v := reflect.New(o.Kind.Type())
+			b.OptVal[o.ID] = v.Elem()
+			bl.initOpt(o, v.Elem())
+			lg.AddOption(lo, v.Interface())
+		}
 		lo := lg.Options()
 		if len(lo) != len(g.Options) {
 			b.PairErr = fmt.Sprintf("group %q: library has %d options, declaration %d", g.Desc, len(lo), len(g.Options))
